@@ -27,17 +27,36 @@ type hostT struct {
 	up                 bool
 }
 
+// Data-centre and rack names.  The model compares integer codes; the codes stand for these strings, which are
+// pairwise different but adversarially close: case variants of each other (also non-ASCII case folds: Kelvin
+// sign / k, long s / s), prefixes of each other, the empty string, surrounding blanks, non-ASCII letters.  The
+// policies must tell them apart exactly (Go string equality); expected tiers are computed from the codes only.
+var dcNames = []string{"", "dc1", "DC1", "dc", "dc10", "d\u00e71", "Dc1", "dc1 ", "\u212a1", "k1", "K1"}
+var rackNames = []string{"", "1a", "1A", "1", "1aa", "1\u00e1", "\u017f1", "s1", "S1", " 1a"}
+
 func dcName(i int) string {
-	if i == 0 {
-		return ""
+	if i >= 0 && i < len(dcNames) {
+		return dcNames[i]
 	}
-	return fmt.Sprintf("dc%d", i)
+	return fmt.Sprintf("dc-%d", i)
 }
 func rackName(i int) string {
-	if i == 0 {
-		return ""
+	if i >= 0 && i < len(rackNames) {
+		return rackNames[i]
 	}
-	return fmt.Sprintf("r%d", i)
+	return fmt.Sprintf("rack-%d", i)
+}
+
+// the code of a data-centre name (for the tier function handed to the tier-generic policy)
+func dcCode(name string) uint {
+	for i, n := range dcNames {
+		if n == name {
+			return uint(i)
+		}
+	}
+	var n uint
+	fmt.Sscanf(name, "dc-%d", &n)
+	return n
 }
 
 func (h *hostT) coq() string { return fmt.Sprintf("(H %d %d %d %d)", h.id, h.addr, h.dc, h.rack) }
@@ -131,11 +150,7 @@ func (c polCfg) build() gocql.HostSelectionPolicy {
 	case 2:
 		fb = gocql.RackAwareRoundRobinPolicy(dcName(c.ldc), rackName(c.lrack))
 	default:
-		fb = gocql.VerifC11TieredPolicy(uint(c.maxT), func(h *gocql.HostInfo) uint {
-			var n uint
-			fmt.Sscanf(h.DataCenter(), "dc%d", &n) // "" (unknown data centre) is 0
-			return n
-		})
+		fb = gocql.VerifC11TieredPolicy(uint(c.maxT), func(h *gocql.HostInfo) uint { return dcCode(h.DataCenter()) })
 	}
 	if !c.ta {
 		return fb
@@ -817,6 +832,9 @@ func newScen(r *hlib.Rng, cfg polCfg, sh shape, stats map[string]int) *scen {
 		if r.Chance(3) {
 			h.dc = 0 // a host whose data centre is unknown ("")
 		}
+		if r.Chance(3) {
+			h.rack = 0
+		}
 		if sh.dupAddr && i > 0 && r.Chance(25) {
 			h.addr = 1 + r.Intn(i)
 		}
@@ -995,6 +1013,12 @@ func randCfg(r *hlib.Rng, nDC, nRack int, search bool) polCfg {
 		c.ldc = nDC + 1 // a local data centre no host is in
 	}
 	c.lrack = 1 + r.Intn(nRack)
+	if r.Chance(4) {
+		c.lrack = 0 // configured with an empty rack / data-centre name
+	}
+	if r.Chance(3) {
+		c.ldc = 0
+	}
 	c.ta = r.Chance(65)
 	if c.ta {
 		c.shuffle = r.Chance(35)
@@ -1005,8 +1029,11 @@ func randCfg(r *hlib.Rng, nDC, nRack int, search bool) polCfg {
 
 func randShape(r *hlib.Rng, search bool) shape {
 	sh := shape{nHosts: 1 + r.Intn(12), nDC: 1 + r.Intn(3), nRack: 1 + r.Intn(3), vnodes: 1, upPct: 80, rfMax: 3, steps: 6 + r.Intn(10)}
-	if r.Chance(20) {
-		sh.nDC = 1 + r.Intn(6) // many data centres (tier-generic policies)
+	if r.Chance(25) {
+		sh.nDC = 1 + r.Intn(9) // many data centres (tier-generic policies, the whole name alphabet)
+	}
+	if r.Chance(25) {
+		sh.nRack = 1 + r.Intn(9)
 	}
 	if search {
 		sh.nHosts = 2 + r.Intn(15)
